@@ -1,5 +1,7 @@
 (* Proofs/CheckC02.v — (group hF) what an accepted verdict of check_C02 means.
-   An accepted line (verdict code 0; check_C02 never returns 1) decodes to sizes and a tie vector inside
+   A line holds k >= 1 blocks (distributions evaluated back to back in one process, Check/C02.v); an
+   accepted line has at least one block and EVERY block satisfies [case_ok]:
+   the block (verdict code 0; check_C02 never returns 1) decodes to sizes and a tie vector inside
    the property's domain, no call panicked, and for EVERY queried u the observed PMF(u) and CDF(u) are
    within tol_prob = 1e-10 of  count / C(N1+N2, N1)  where count is the number of size-N1 subsets of the
    ranked pool (Spec/Ucount.v: count_eq / count_le over labellings) whose statistic 2U is = / <= the
@@ -14,7 +16,7 @@ Import ListNotations.
 Local Open Scope Q_scope.
 
 (* ====================== the conclusion ====================== *)
-Definition case02 : Type := (nat * nat * bool * list nat * list (Q * xreal * xreal) * (xreal * xreal * xreal) * Z)%type.
+Definition case02 : Type := block02.   (* = nat * nat * bool * list nat * list (Q * xreal * xreal) * (xreal * xreal * xreal) * Z *)
 
 (* tie structure of the pooled sample, highest rank first: the tie vector reversed, or N1+N2 distinct
    values when there are no ties (T nil or all ones) *)
@@ -41,6 +43,10 @@ Definition tie_vector_ok (N1 N2 : nat) (tnil : bool) (T : list nat) : Prop :=
 
 Definition obs_eq (e : Q) (o : xreal) : Prop := exists q, o = XFin q /\ q == e.
 
+(* status = 0 is the harness's report that every call of the block returned, that the tie vector was
+   not modified, and (lines with several blocks) that the second, distribution-major pass over all blocks
+   reproduced every PMF/CDF value of the first, point-major pass BIT FOR BIT (status 5 otherwise): the
+   observed values are independent of which other distributions were evaluated before them. *)
 Definition case_ok (cs : case02) : Prop :=
   let '(N1, N2, tnil, T, us, (lo, hi, st), status) := cs in
   status = 0%Z /\ tie_vector_ok N1 N2 tnil T /\
@@ -214,29 +220,63 @@ Proof.
     apply Forall_forall. intros t Ht. rewrite forallb_forall in H4. specialize (H4 t Ht). now apply Nat.leb_le in H4.
 Qed.
 
-Theorem check_ok_sound line code tag pos diag (cs : case02) :
-  check_C02 line = verdict code tag pos diag -> (code = 0 \/ code = 1)%Z ->
-  p_line02 line = Some (cs, []) -> case_ok cs.
+(* a block's verdict code is ok, mismatch or malformed *)
+Lemma check_block02_codes b c tg ps dg : check_block02 b = (c, tg, ps, dg) -> c = V_OK \/ c = V_MISMATCH \/ c = V_MALFORMED.
 Proof.
-  unfold check_C02. intros H Hc P. rewrite P in H.
+  unfold check_block02. destruct b as [[[[[[N1 N2] tnil] T] us] [[lo hi] st]] status].
+  destruct (negb (C02.valid_T N1 N2 tnil T)); [intro H; injection H as <- _ _ _; auto|].
+  destruct (negb (status =? 0)%Z); [intro H; injection H as <- _ _ _; auto|]. cbv zeta.
+  destruct (cmp_us _ _ _ _ _ _ _ _) as [[[i wh] e]|]; [intro H; injection H as <- _ _ _; auto|].
+  destruct (udist_bounds N1 N2) as [elo ehi].
+  destruct (negb (xeq (XFin elo) lo && xeq (XFin ehi) hi)); [intro H; injection H as <- _ _ _; auto|].
+  destruct (negb (xeq (XFin udist_step) st)); intro H; injection H as <- _ _ _; auto.
+Qed.
+
+Theorem check_block_ok_sound (cs : case02) code tag pos diag :
+  check_block02 cs = (code, tag, pos, diag) -> (code = 0 \/ code = 1)%Z -> case_ok cs.
+Proof.
+  unfold check_block02. intros H Hc.
   destruct cs as [[[[[[N1 N2] tnil] T] us] [[lo hi] st]] status].
   destruct (C02.valid_T N1 N2 tnil T) eqn:V; cbn [negb] in H;
-    [|apply verdict_inj in H; unfold V_MALFORMED in H; lia].
+    [|injection H as <- _ _ _; unfold V_MALFORMED in Hc; lia].
   apply valid_T_sound in V.
-  destruct (status =? 0)%Z eqn:S; cbn [negb] in H; [|apply verdict_inj in H; unfold V_MISMATCH in H; lia].
+  destruct (status =? 0)%Z eqn:S; cbn [negb] in H; [|injection H as <- _ _ _; unfold V_MISMATCH in Hc; lia].
   apply Z.eqb_eq in S. cbv zeta in H.
   destruct (cmp_us N1 N2 T (dist_table N1 N2 T) (cumsum 0 (dist_table N1 N2 T)) (choosen (N1 + N2) N1) us 0) as [[[i wh] e]|] eqn:CU;
-    [apply verdict_inj in H; unfold V_MISMATCH in H; lia|].
+    [injection H as <- _ _ _; unfold V_MISMATCH in Hc; lia|].
   unfold udist_bounds, udist_step in H.
   destruct (xeq (XFin 0) lo && xeq (XFin (QN (N1 * N2))) hi) eqn:B; cbn [negb] in H;
-    [|apply verdict_inj in H; unfold V_MISMATCH in H; lia].
+    [|injection H as <- _ _ _; unfold V_MISMATCH in Hc; lia].
   destruct (xeq (XFin (1 # 2)) st) eqn:St; cbn [negb] in H;
-    [|apply verdict_inj in H; unfold V_MISMATCH in H; lia].
+    [|injection H as <- _ _ _; unfold V_MISMATCH in Hc; lia].
   apply andb_prop in B. destruct B as [B1 B2].
   unfold case_ok. split; [exact S|]. split; [exact V|]. split.
   - intros X cmp z Hg. apply cmp_us_none in CU. eapply Forall_impl; [|exact CU].
     intros it. apply (u_pass_ok cmp z N1 N2 tnil T V Hg).
   - split; [apply xeq_fin; exact B1|]. split; [apply xeq_fin; exact B2|apply xeq_fin; exact St].
+Qed.
+
+(* the blocks are checked in order and the first one that is not ok decides: acceptance means every block is ok *)
+Lemma check_blocks_ok_sound : forall bs k tag0 code tag pos diag,
+  check_blocks02 bs k tag0 = verdict code tag pos diag -> (code = 0 \/ code = 1)%Z -> Forall case_ok bs.
+Proof.
+  induction bs as [|b bs IH]; intros k tag0 code tag pos diag H Hc; [constructor|].
+  cbn [check_blocks02] in H. destruct (check_block02 b) as [[[c tg] ps] dg] eqn:B.
+  destruct (c =? V_OK)%Z eqn:E.
+  - apply Z.eqb_eq in E. constructor.
+    + apply (check_block_ok_sound b c tg ps dg B). left. exact E.
+    + exact (IH _ _ _ _ _ _ H Hc).
+  - apply Z.eqb_neq in E. apply verdict_inj in H. destruct H as [H _]. subst c.
+    destruct (check_block02_codes b _ _ _ _ B) as [C|[C|C]]; unfold V_OK, V_MISMATCH, V_MALFORMED in *; lia.
+Qed.
+
+Theorem check_ok_sound line code tag pos diag (bs : list case02) :
+  check_C02 line = verdict code tag pos diag -> (code = 0 \/ code = 1)%Z ->
+  p_line02 line = Some (bs, []) -> bs <> [] /\ Forall case_ok bs.
+Proof.
+  unfold check_C02. intros H Hc P. rewrite P in H. destruct bs as [|b bs].
+  - apply verdict_inj in H. unfold V_MALFORMED in H. lia.
+  - split; [discriminate|]. exact (check_blocks_ok_sound _ _ _ _ _ _ _ H Hc).
 Qed.
 
 (* an accepted line always parses completely *)
@@ -248,7 +288,7 @@ Proof.
 Qed.
 
 Theorem check_accepted_parses line code tag pos diag :
-  check_C02 line = verdict code tag pos diag -> (code = 0 \/ code = 1)%Z -> exists cs, p_line02 line = Some (cs, []).
+  check_C02 line = verdict code tag pos diag -> (code = 0 \/ code = 1)%Z -> exists bs, p_line02 line = Some (bs, []).
 Proof.
   unfold check_C02. intros H Hc. destruct (p_line02 line) as [[cs r]|] eqn:P.
   - exists cs. rewrite (p_line02_rest _ _ _ P). reflexivity.
